@@ -182,6 +182,12 @@ def consistency(soup):
         f = soup.find(nm)
         if soup.count(nm) != len(fa) or (f is None) != (not fa) or (f is not None and f.expr is not fa[0].expr):
             bad.append('find')
+    try:          # the regex search runs over the text view: it must keep working on edited trees
+        hits = [str(m) for m in soup.search_regex('[A-Za-z]+')]
+        if ''.join(hits) != ''.join(''.join(x for x in str(t) if x.isascii() and x.isalpha()) for t in soup.text):
+            bad.append('search_regex')
+    except Exception:   # noqa
+        bad.append('search_regex-raises')
     return sorted(set(bad))
 
 
